@@ -1,9 +1,10 @@
 (* Props/C16.v — scanned model schemas describe the type's actual JSON encoding (fragment of Scan/GoTypes.v:
    strings, booleans, integers of every width, pointers, slices, arrays, string-keyed maps, nested structs, json names
    and omitempty; unexported / "-" / ignored fields are not part of the type as the model sees it).
-   Outside the fragment (floats, time.Time, named types, ",string", embedded structs, interface{}, RawMessage, []byte)
-   the property is decided on the implementation only (scancheck). *)
-From GS Require Import Base.Str Base.Json Scan.GoTypes Scan.GoTypesLemmas.
+   Embedded structs (Scan/Embed.v): declarations whose embedded members promote disjoint sets of names.
+   Outside the fragment (floats, time.Time, named types, ",string", embedded pointers and embeddings with a json name,
+   interface{}, RawMessage, []byte) the property is decided on the implementation only (scancheck). *)
+From GS Require Import Base.Str Base.Json Scan.GoTypes Scan.GoTypesLemmas Scan.Embed Scan.EmbedLemmas.
 
 (* every value of the type — with nil only where the definition can say so: pointer fields (x-nullable) and omitempty
    fields — is encoded by encoding/json as a document the scanned definition accepts *)
@@ -37,3 +38,56 @@ Example C16_refuted_nil_slice :
   let t := GStruct [(s "f", false, GSlice GStr)] in let v := VStruct [VNil] in
   has_type t v = true /\ sval (scan t) (encode t v) = false.
 Proof. split; vm_compute; reflexivity. Qed.
+
+(* ---------- embedded structs ---------- *)
+(* a struct declaration with embedded structs, read by encoding/json ([go_struct]: least depth wins, ties hide the
+   name) and by the scanner ([scan_emb]: embedded members written first, in declaration order, then the declared
+   fields; the last write of a name stays).  When two embedded members of one struct never promote the same name
+   ([ewf]; a declared field may shadow a promoted one, at any depth), the property table of the scanner holds exactly
+   the fields encoding/json sees *)
+Theorem C16_embedding_table : forall fs x, ewf fs = true -> (In x (table (writes_f (SE fs))) <-> In x (promote fs)).
+Proof. exact table_promote. Qed.
+Print Assumptions C16_embedding_table.
+
+(* ... hence the definition accepts the same documents as the definition of the flat struct encoding/json sees *)
+Theorem C16_embedding_agree : forall fs d, ewf fs = true -> sval (scan_emb fs) d = sval (scan (go_struct fs)) d.
+Proof. exact scan_emb_agrees. Qed.
+Print Assumptions C16_embedding_agree.
+
+(* ... and both directions of the property hold for it *)
+Theorem C16_embedding_encoding_accepted : forall fs v,
+  ewf fs = true -> types_wf fs = true -> has_type (go_struct fs) v = true -> clean (go_struct fs) v = true ->
+  sval (scan_emb fs) (encode (go_struct fs) v) = true.
+Proof. exact emb_encoding_accepted'. Qed.
+Print Assumptions C16_embedding_encoding_accepted.
+
+Theorem C16_embedding_accepted_decodes : forall fs d,
+  ewf fs = true -> sval (scan_emb fs) d = true -> decodes (go_struct fs) d = true.
+Proof. exact emb_accepted_decodes. Qed.
+Print Assumptions C16_embedding_accepted_decodes.
+
+(* the fields encoding/json sees never share a name, whatever the declaration *)
+Theorem C16_promoted_names_distinct : forall fs, nodupb (map fname (promote fs)) = true.
+Proof. exact promote_nodup. Qed.
+Print Assumptions C16_promoted_names_distinct.
+
+(* a declaration in the domain: an own field shadows a promoted one, two levels of embedding *)
+Definition deep_v : sfield := SE [SF (s "v", false, GInt (-128) 127); SF (s "w", false, GBool)].
+Definition shadowing : list sfield := [SE [deep_v; SF (s "u", true, GSlice GStr)]; SF (s "v", false, GStr)].
+Example C16_embedding_nonvacuous :
+  ewf shadowing = true /\ types_wf shadowing = true /\
+  promote shadowing = [(s "w", false, GBool); (s "u", true, GSlice GStr); (s "v", false, GStr)] /\
+  has_type (go_struct shadowing) (VStruct [VBool true; VNil; VStr (s "x")]) = true /\
+  clean (go_struct shadowing) (VStruct [VBool true; VNil; VStr (s "x")]) = true.
+Proof. repeat split; vm_compute; reflexivity. Qed.
+
+(* the hypothesis [ewf] is needed, and the unchanged scanner fails without it: struct { ShallowV; MidV } where ShallowV
+   declares v string and MidV embeds a struct declaring v int64 — encoding/json shows the shallower v (a string), the
+   scanner keeps the write of the member embedded later (an integer), and rejects the type's own encoding
+   (known finding c16/encoding-rejected-by-definition[deeper-promoted-field-written-after-a-shallower-one-of-the-same-name]) *)
+Definition both_decl : list sfield := [SE [SF (s "v", false, GStr)]; SE [SE [SF (s "v", false, GInt (-128) 127); SF (s "w", false, GBool)]]].
+Example C16_embedding_refuted_overlap :
+  ewf both_decl = false /\
+  has_type (go_struct both_decl) (VStruct [VStr []; VBool false]) = true /\
+  sval (scan_emb both_decl) (encode (go_struct both_decl) (VStruct [VStr []; VBool false])) = false.
+Proof. repeat split; vm_compute; reflexivity. Qed.
